@@ -12,24 +12,24 @@ HOOK_COMMITS = ["4306f7e", "2e01422"]
 # Streams added while the checks were validated against independently seeded changes (DESIGN.md
 # section 7); appended to the level text so that the manifest says what the commands run today.
 EXTRA = {
- "C01": "Also: per-session generated policy lists with overlaps and empty lists; concurrent sessions with another party removing messages; multi-recipient transactions with one recipient's mailbox made unwritable (250 judged strictly).",
- "C02": "Also: POP3 retrieval scripts within one session (repeated RETR/TOP); concurrent sessions with distinct bodies; a size-limited memory store with exact lengths around the limit; SIZE parameters; data sent without waiting for the 354; legacy charsets declared; the newest message also read under the id 'latest'.",
+ "C01": "Also: per-session generated policy lists with overlaps and empty lists; concurrent sessions with another party removing messages; multi-recipient transactions with one recipient's mailbox made unwritable (250 judged strictly). Another interface (POP3 DELE+QUIT, manager removals) working on other messages of the mailbox while deliveries are acknowledged.",
+ "C02": "Also: POP3 retrieval scripts within one session (repeated RETR/TOP); concurrent sessions with distinct bodies; a size-limited memory store with exact lengths around the limit; SIZE parameters; data sent without waiting for the 354; legacy charsets declared; the newest message also read under the id 'latest'. Mailbox caps 1 and 2 with several deliveries per mailbox.",
  "C03": "Also: TLS-configured servers with STARTTLS upgrades continued inside TLS; logical idle-timeout injection; bracket-soup arguments; one server wearing through many lost connections; sessions overlapping on one server with deliveries held inside Deliver; bursts of simultaneous connects on the real listener.",
  "C04": "Also: long host names; the Go client, the per-mailbox WebSocket monitors (v1/v2) and POP3 login by name as read interfaces; recipients the harness policy refuses offered to the server.",
- "C05": "Also: recipients sharing a mailbox with opposite store policy; an explicitly allowing extension; real Lua scripts that take no decision; composed wildcard arrangements; lists of up to 12 entries; web pages fetched around sessions; a dozen data shapes.",
- "C06": "Also: an oversized message stalled past the idle timeout with a transaction smuggled in its tail; discard-domain probes; a STARTTLS slice; HELO greetings; overlapping sessions with deliveries held inside Deliver (no byte of a refused message stored or on disk); SIZE values at the integer-type edges.",
+ "C05": "Also: recipients sharing a mailbox with opposite store policy; an explicitly allowing extension; real Lua scripts that take no decision; composed wildcard arrangements; lists of up to 12 entries; web pages fetched around sessions; a dozen data shapes. MaxRecipients 0.",
+ "C06": "Also: an oversized message stalled past the idle timeout with a transaction smuggled in its tail; discard-domain probes; a STARTTLS slice; HELO greetings; overlapping sessions with deliveries held inside Deliver (no byte of a refused message stored or on disk); SIZE values at the integer-type edges. The size workload under flipped SMTP switches (Debug, lists, TLS offered, ForceTLS).",
  "C07": "Also: goroutines each owning one of several sibling mailboxes (shared hash directories); alias ids (latest, +1, 002) as ids of messages that do not exist; a quarter of the sequences with a mailbox cap; the file store's id counter driven across its 9999->0000 wrap; a visitor called after returning false is a violation.",
  "C08": "Also: overlapping deliveries to capped mailboxes; removals of the oldest mail racing with deliveries on a full size-limited store; an overtaken registration at the mem.add.visible hook; a changed cap on reopen; a capped file-store mailbox whose content file was lost; deliveries declaring fewer bytes than they send.",
  "C09": "Also: content read through message handles judged against the delivery that created them; a keeper message exposing accounting drift; index files damaged behind the store while healthy mailboxes are used concurrently; owners cycling mailboxes that share hash directories.",
- "C10": "Also: concurrent first reads after a reopen; reopen with a changed cap; whole-service lifecycles (FullAssembly restart with an open POP3 session, retention 0); reopens and restarts that go straight on with the history without an immediate read.",
+ "C10": "Also: concurrent first reads after a reopen; reopen with a changed cap; whole-service lifecycles (FullAssembly restart with an open POP3 session, retention 0); reopens and restarts that go straight on with the history without an immediate read. Store paths with glob/shell metacharacters, spaces, unicode and odd spellings.",
  "C11": "Also: whole episodes in fresh processes - a process killed inside a delivery and a restarted process (fresh id counter) delivering to the same mailbox within the same wall-clock second.",
- "C12": "Also: the full assembly started with a failing listener or cancelled before ready; the real run loop and mid-scan cancellation; content files removed before the scan; mail received through the manager with lying Date headers; RetentionSleep 0 cancellation; hostile store directory names; a size-limited memory store with deliveries forcing evictions during the scan.",
+ "C12": "Also: the full assembly started with a failing listener or cancelled before ready; the real run loop and mid-scan cancellation; content files removed before the scan; mail received through the manager with lying Date headers; RetentionSleep 0 cancellation; hostile store directory names; a size-limited memory store with deliveries forcing evictions during the scan. Scans of hundreds of expired messages with a stuck after-event listener attached.",
  "C13": "Also: QUIT transmitted with the client gone before the reply; logical idle-timeout endings; another party removing marked messages, purging or emptying the mailbox and delivering anew between two commands; delivery-based identity in the QUIT oracle.",
  "C14": "Also: content the MIME parser rejects; mailbox names of up to 128 characters; store-side removals; the Go client with a trailing-slash base URL; an API call while a delivery to the same mailbox is in flight.",
  "C15": "Also: a stalled listener overflowing while the hub\'s own operation queue is full; ids shared across mailboxes; an end-to-end stream (store -> manager -> extension host -> hub -> real socket listeners) with multi-recipient deliveries and faulty mailboxes; history lengths up to 2500.",
- "C16": "Also: a real Lua script with both after-hooks held inside one of them; a conservation oracle for size evictions; clients racing on the same message/mailbox (boxrace); content-file faults in the file store; a hub listener attached for the whole history, also for messages that left the ring.",
- "C17": "Also: script-level state across concurrent sessions.",
- "C18": "Also: HTML bodies with one token of up to 4 MiB; url( in every spelling; texts of 4 KiB to 4 MiB.",
+ "C16": "Also: a real Lua script with both after-hooks held inside one of them; a conservation oracle for size evictions; clients racing on the same message/mailbox (boxrace); content-file faults in the file store; a hub listener attached for the whole history, also for messages that left the ring. Flood histories: thousands of events emitted while a Lua hook is held.",
+ "C17": "Also: script-level state across concurrent sessions. Every arity of the Lua response constructors.",
+ "C18": "Also: HTML bodies with one token of up to 4 MiB; url( in every spelling; texts of 4 KiB to 4 MiB. multipart/related mail with markup in part file names, Content-IDs and parameters, referenced by cid:.",
  "C19": "Also: full-assembly shutdown that overtakes start-up; a scanner leaving from its pause; implicit-TLS aborts; a RetentionSleep-0 scan cancelled inside a visit; full-assembly scenarios with maxkb; shutdown after a listener failed to start; a connection served while Drain waits; callers of an overfilled hub at shutdown.",
 }
 
